@@ -46,8 +46,78 @@ type seqScenario struct {
 
 func eraFor(i int) int { return (i*5 + 3) % 7 } // changes with every request, stays in 0..6
 
+// Reply sizes across the muxer segment boundary (segment payload <= 65535 bytes): the
+// raw peer splits a larger message over several segments, so reassembly in the client's
+// readLoop is exercised.  0 = small.
+var bigSizes = []int{65535, 65536, 70000, 140000}
+
+// sizeFor decides the total size of the k-th size-free reply of a protocol instance:
+// small and large alternate, the large ones cycle through bigSizes, so every instance
+// that makes four such calls sees at least two multi-segment replies with small ones between.
+func sizeFor(k int) int {
+	if k%2 == 0 {
+		return 0
+	}
+	return bigSizes[(k/2)%len(bigSizes)]
+}
+
+// intArrayReply builds [msgType, [first..., 0, 0, ...]] of exactly target bytes (target 0: no padding)
+func intArrayReply(msgType byte, first []uint64, target int) []byte {
+	var fixed []byte
+	for _, v := range first {
+		fixed = append(fixed, cborHead(0, v)...)
+	}
+	n := 0
+	for it := 0; target > 0 && it < 16; it++ {
+		total := 2 + len(cborHead(4, uint64(len(first)+n))) + len(fixed) + n
+		if total == target {
+			break
+		}
+		n += target - total
+		if n < 0 {
+			n = 0
+			break
+		}
+	}
+	out := cat([]byte{0x82, msgType}, cborHead(4, uint64(len(first)+n)), fixed)
+	return append(out, make([]byte, n)...)
+}
+
+// nextTxReply builds [6, [1, 24(h'tx')]] with tx = 8-byte tag followed by filler byte(i), message of exactly target bytes
+func nextTxReply(i int, target int) []byte {
+	n := 8
+	for it := 0; target > 0 && it < 16; it++ {
+		total := 2 + 1 + 1 + 2 + len(cborHead(2, uint64(n))) + n
+		if total == target {
+			break
+		}
+		n += target - total
+	}
+	tx := make([]byte, n)
+	tx[6], tx[7] = byte(i>>8), byte(i)
+	for k := 8; k < n; k++ {
+		tx[k] = byte(i)
+	}
+	return cat([]byte{0x82, 0x06, 0x82, 0x01, 0xd8, 0x18}, cborHead(2, uint64(n)), tx)
+}
+
+// txTag recovers the tag of a NextTx transaction and checks its filler (-2: assembled from different replies)
+func txTag(tx []byte) int64 {
+	if len(tx) < 8 {
+		return -2
+	}
+	tag := int64(tx[6])<<8 | int64(tx[7])
+	for k := 8; k < len(tx); k++ {
+		if tx[k] != byte(tag) {
+			return -2
+		}
+	}
+	return tag
+}
+
 type seqServer struct {
 	mu    sync.Mutex
+	nfree map[uint16]int // size-free replies sent so far, per protocol
 	n     map[uint16]int
 	wires map[uint16][]seqWire
 	p     *peer.Peer
@@ -58,6 +128,7 @@ func (s *seqServer) onMsg(proto uint16, mt uint, raw []byte) {
 	i := s.n[proto]
 	s.n[proto] = i + 1
 	rec := func(kind string, era int) { s.wires[proto] = append(s.wires[proto], seqWire{i, kind, era}) }
+	nextSize := func() int { k := s.nfree[proto]; s.nfree[proto] = k + 1; return sizeFor(k) }
 	var payload []byte
 	var arr []cbor.RawMessage
 	cbor.Decode(raw, &arr)
@@ -90,7 +161,7 @@ func (s *seqServer) onMsg(proto uint16, mt uint, raw []byte) {
 				cbor.Decode(arr[1], &q)
 			}
 			kind, era := "plainq", 0
-			reply := cat([]byte{0x82, 0x04, 0x82, 0x01}, cborHead(0, uint64(i))) // [4, [1, i]] (chain block no)
+			reply := []byte(nil) // default below: [4, [1, i, 0...]] (chain block no), size-free
 			if len(q) > 0 {
 				switch q0, _ := q[0].(uint64); q0 {
 				case 0:
@@ -105,7 +176,7 @@ func (s *seqServer) onMsg(proto uint16, mt uint, raw []byte) {
 								e, _ := sq[0].(uint64)
 								era = int(e)
 							}
-							reply = cat([]byte{0x82, 0x04, 0x81}, cborHead(0, uint64(i))) // [4, [i]] epoch no
+							reply = intArrayReply(0x04, []uint64{uint64(i)}, nextSize()) // [4, [i, 0...]] epoch no, size-free
 						}
 					}
 				case 1: // system start [year, day, picoseconds]
@@ -113,6 +184,9 @@ func (s *seqServer) onMsg(proto uint16, mt uint, raw []byte) {
 				case 3: // chain point [slot, hash]
 					reply = cat([]byte{0x82, 0x04, 0x82}, cborHead(0, uint64(i)), []byte{0x44, 1, 2, 3, 4})
 				}
+			}
+			if reply == nil {
+				reply = intArrayReply(0x04, []uint64{1, uint64(i)}, nextSize())
 			}
 			rec(kind, era)
 			payload = reply
@@ -131,8 +205,7 @@ func (s *seqServer) onMsg(proto uint16, mt uint, raw []byte) {
 			payload = []byte{0x82, 0x08, 0xf4 + byte(i&1)}
 		case 5:
 			rec("tm-next", 0)
-			tx := []byte{0, 0, 0, 0, 0, 0, byte(i >> 8), byte(i)}
-			payload = cat([]byte{0x82, 0x06, 0x82, 0x01, 0xd8, 0x18, 0x48}, tx)
+			payload = nextTxReply(i, nextSize())
 		case 9:
 			rec("tm-sizes", 0)
 			payload = cat([]byte{0x82, 0x0a, 0x83}, cborHead(0, uint64(i)), cborHead(0, uint64(i+100000)), cborHead(0, uint64(i+200000)))
@@ -158,7 +231,7 @@ func (s *seqServer) since(proto uint16, k int) []seqWire {
 }
 
 func runSeq(sc seqScenario) (calls []seqCall, fatal string) {
-	s := &seqServer{n: map[uint16]int{}, wires: map[uint16][]seqWire{}}
+	s := &seqServer{n: map[uint16]int{}, nfree: map[uint16]int{}, wires: map[uint16][]seqWire{}}
 	s.p = peer.New(false)
 	s.p.OnMsg = s.onMsg
 	defer s.p.Close()
@@ -227,8 +300,8 @@ func runSeq(sc seqScenario) (calls []seqCall, fatal string) {
 			case "tmnext":
 				var tx []byte
 				tx, cerr = tm.NextTx()
-				if len(tx) == 8 {
-					c.Res = int64(tx[6])<<8 | int64(tx[7])
+				if cerr == nil {
+					c.Res = txTag(tx)
 				}
 			case "tmsizes":
 				var a, b2, c3 uint32
@@ -448,8 +521,8 @@ func coqSeqCase(calls []seqCall) string {
 func genSeq(r *vh.Rng, n int) seqScenario {
 	sc := seqScenario{Seed: r.U64()}
 	acquired := false
-	lsqOps := []string{"acqP", "acqV", "acqI", "era", "era", "epoch", "epoch", "point", "start", "blockno", "rel"}
-	tmOps := []string{"tmacq", "tmhas", "tmnext", "tmsizes", "tmrel"}
+	lsqOps := []string{"acqP", "acqV", "acqI", "era", "era", "epoch", "epoch", "point", "start", "blockno", "blockno", "blockno", "rel"}
+	tmOps := []string{"tmacq", "tmhas", "tmnext", "tmnext", "tmnext", "tmsizes", "tmrel"}
 	tmAcq := false
 	for i := 0; i < n; i++ {
 		if r.Intn(4) == 0 {
